@@ -59,6 +59,9 @@ Types ==
     [] Fam = "bigmap" -> {[k |-> "map", key |-> kk, e |-> K("int")] : kk \in {"str", "i64", "txt"}} \cup {St(<<Fld("none", "A", "A", [k |-> "map", key |-> "str", e |-> K("int")])>>)}
     [] Fam = "emb" -> {St(<<Fld("emb", "E", "E", e), g>>) : e \in {EmbA, EmbM, [k |-> "ptr", e |-> EmbA], [k |-> "ptr", e |-> EmbM]},
                                                        g \in {Fld("none", "A", "A", K("str")), Fld("none", "C", "C", K("int")), Fld("ren", "B", "b", K("mtp"))}}
+                      \* the same struct embedded twice at one depth (by value and / or by pointer): its fields are ambiguous and vanish
+                      \cup {St(<<Fld("emb", "E", "E", e), Fld("emb", "F", "F", e2)>>) : e \in {EmbA, [k |-> "ptr", e |-> EmbA]},
+                                                                                     e2 \in {EmbA, [k |-> "ptr", e |-> EmbA], EmbM}}
 
 TypeSeq == SetToSeq(Types)
 MyTypes == {TypeSeq[i] : i \in {x \in 1..Len(TypeSeq) : x % NParts = Part}}
